@@ -33,7 +33,7 @@ META = {
                    "bounds and guarantees both vectors have length N afterwards; the checked arity equals the declared "
                    "parameter count. The arithmetic part of C02 is C04's int_binop_no_panic / assign_update_no_panic; "
                    "the machine-level part (value-stack discipline, break/continue in expression position, :skip) and "
-                   "deeply nested values are NOT proved here: search only." " Machine-level part: theorems machine_step_never_crashes_partial / machine_run_never_crashes_partial (Discipline.v, on the evaluator model Machine.v, tied to eval.rs by differential execution): for well-formed programs of the fragment without for/break/continue/return/closure literals/match, no step of the eval loop panics (value-stack and binding-block discipline)."),
+                   "deeply nested values are NOT proved here: search only." " Machine-level part: theorems machine_step_never_crashes_partial / machine_run_never_crashes_partial (Discipline.v, on the evaluator model Machine.v, tied to eval.rs by differential execution): for well-formed programs of the fragment Session.wf = the modelled core language without for/break/continue/closure literals (match and return, also in operand position, are included since Session.wf was widened), from ANY state satisfying the discipline no step of the eval loop panics (value-stack and binding-block discipline). For the rest (for, break/continue as statements, closures) there is machine_run_never_crashes_when_ref_terminates_partial (from the C05 refinement): on every program of Refine.in_fragment on which the reference semantics terminates (value or runtime error) the run from the initial state never crashes whatever the fuel; not covered by proof: diverging runs of programs with for/break/continue/closures, and break/continue in operand position (known finding C05:break-continue-in-operand-position)."),
     "level_note": ("Trusted: Coq kernel; tools/gen_builtins.py (textual arm analysis, dominance = textual order of "
                    "top-level statements); the check_arity model in coq/Sandbox.v. Not covered by the theorem: panics "
                    "inside an arm that are not argument-vector indexing (unwrap/expect, arithmetic, slicing, "
